@@ -48,6 +48,7 @@ end
 const c05ObjScenario = `package objs
 
 import (
+	"context"
 	"fmt"
 	"testing"
 	"time"
@@ -247,6 +248,44 @@ func (n *notesImpl) Store(name string, data value.Value) (string, error) {
 }
 func (n *notesImpl) Title(k int32) (string, error) { return fmt.Sprintf("title number %d", k), nil }
 
+// a proxy bound to a context (WithContext) is a proxy of its own: when that context is over, the calls through the
+// proxy it was derived from still reach the implementation
+func TestBoundedProxy(t *testing.T) {
+	listener, err := net.Listen(util.NewUnixAddr())
+	if err != nil {
+		t.Fatal(err)
+	}
+	srv, err := bus.StandAloneServer(listener, bus.Yes{}, bus.PrivateNamespace())
+	if err != nil {
+		t.Fatal(err)
+	}
+	defer srv.Terminate()
+	if _, err = srv.NewService("Notes", NotesObject(&notesImpl{})); err != nil {
+		t.Fatal(err)
+	}
+	session := srv.Session()
+	defer session.Terminate()
+	notes, err := Notes(session)
+	if err != nil {
+		t.Fatal(err)
+	}
+	ctx, cancel := context.WithCancel(context.Background())
+	bounded := notes.WithContext(ctx)
+	if got, err := bounded.Title(1); err != nil || got != "title number 1" {
+		t.Fatalf("call through the bounded proxy: %q, %v", got, err)
+	}
+	if got, err := notes.Title(2); err != nil || got != "title number 2" {
+		t.Fatalf("call through the proxy it was derived from: %q, %v", got, err)
+	}
+	cancel()
+	if _, err := bounded.Title(3); err == nil {
+		t.Fatalf("a call through a proxy whose context is over succeeds")
+	}
+	if got, err := notes.Title(4); err != nil || got != "title number 4" {
+		t.Fatalf("after the context of a derived proxy is over, a call through the proxy it was derived from: %q, %v", got, err)
+	}
+}
+
 // a call whose arguments cannot be encoded (a value that is nil, behind a string that can) returns an error and
 // sends nothing; the calls made after it arrive with their own arguments
 func TestFailedEncode(t *testing.T) {
@@ -365,6 +404,9 @@ func execGenObjects(a []string) string {
 	}
 	if len(a) > 0 && a[0] == "3" {
 		test = "TestFailedEncode$"
+	}
+	if len(a) > 0 && a[0] == "4" {
+		test = "TestBoundedProxy$"
 	}
 	goenv := append(os.Environ(), "GOFLAGS=-mod=mod", "GOPROXY=off", "GOSUMDB=off", "GOTOOLCHAIN=local", "CGO_ENABLED=0")
 	var out []byte
